@@ -90,7 +90,7 @@ class _FailAt:
             self.k -= 1
             if self.k < 0:
                 self.k = None
-                return None if self.kind == "silent" else self.inner.exception(data, 6)
+                return None if self.kind == "silent" else self.inner.exception(data, getattr(self, "code", 6))
         return self.inner.respond(data)
 
     def __getattr__(self, name):
@@ -160,7 +160,7 @@ def run_mode_case(acc: Acc, case):
     p, s = case["power"], case["soc"]
     emulated = mode in (OperationMode.ECO_CHARGE, OperationMode.ECO_DISCHARGE)
     if emulated or case["prior"] not in ("off", "zeros", "type0-off"):
-        acc.nontrivial(variant, int(mode), p, s, case["prior"], case.get("others"), repr(case.get("before")), repr(case.get("info_history")), repr(case.get("reader")))
+        acc.nontrivial(variant, int(mode), p, s, case["prior"], case.get("others"), repr(case.get("before")), repr(case.get("info_history")), repr(case.get("reader")), repr(case.get("fault")))
     modes = run_sync(inv.get_operation_modes(True))
     if mode not in modes:
         return []
@@ -196,6 +196,23 @@ def run_mode_case(acc: Acc, case):
             _res, exc_main = siminv.run_overlapping(inv, lambda: inv.set_operation_mode(mode, p, s), [(reader, offset)])
             if exc_main is not None:
                 raise exc_main
+        elif case.get("fault") and fam != "ES":
+            # one request in the middle of the setter gets no answer / a 'busy' exception frame / an 'illegal address' frame.  The
+            # property speaks about calls that SUCCEED: a call that reports the failure is fine, one that returns normally is judged
+            from goodwe.exceptions import InverterError
+            k_req, kind = case["fault"]
+            fault = _FailAt(siminv.responder_for(inv, sim))
+            fault.code = {"busy": 6, "illegal": 2, "silent": 6}[kind]
+            siminv.attach_direct(inv, fault)
+            fault.arm(k_req, "silent" if kind == "silent" else "busy")
+            try:
+                run_sync(inv.set_operation_mode(mode, p, s))
+            except (InverterError, ValueError):     # ValueError: the setting was dropped as unknown after an 'illegal data address' answer
+                acc.cls("setter-reported-the-fault")
+                return []
+            finally:
+                fault.disarm()
+            acc.cls("setter-succeeded-despite-fault")
         else:
             run_sync(inv.set_operation_mode(mode, p, s))
     except ValueError as ex:
@@ -350,6 +367,12 @@ def mode_job(job):
                         for rname in ("eco_mode_1", "get_mode", "settings", "eco_mode_2"):
                             for offset in range(0, 12) if rname != "settings" else (0, 2, 5):
                                 _apply(acc, dict(case, reader=[rname, offset]), run_mode_case)
+                    if others == "fulltime-charge" and (p, s) == grid[2 if mode in (OperationMode.ECO_CHARGE, OperationMode.ECO_DISCHARGE) else 0] and variant.startswith("ET") \
+                            and prior in ("off", "fulltime-charge", "type0-on", "unset"):
+                        # a fault at request k of the setter (no answer, 'busy', 'illegal data address')
+                        for k_req in range(0, 12):
+                            for kind in ("busy", "silent", "illegal"):
+                                _apply(acc, dict(case, fault=[k_req, kind]), run_mode_case)
                     if len(acc.samples) < 1 and mode == OperationMode.ECO_CHARGE and prior == "unset":
                         acc.sample(case)
     return acc
